@@ -15,11 +15,15 @@ every recorded call:
   `mttkrp(X,U,n)` ignores `U[n]`) — C02;
 * `np.linalg.solve`: `SolveContract S` (an answer `A` satisfies `A · Y = B`).
 `ktensor.norm()` is modelled (`knorm`) and the Kruskal norm identity is proved (`C09_knorm`).
+Monotonicity of the fit (`C09_fit_monotone_mode_update`, `_sweep`, `C09_fit_monotone`, `_run`) is
+proved for the list model itself under exactly these contracts (`Lemmas/CpAlsMonotone.lean`).
 Only theorems named `C09_*` and their non-vacuity examples live here.
 -/
 import PyttbModel.Lemmas.CpAlsRun
 import PyttbModel.Lemmas.CpAlsKnorm
 import PyttbModel.Lemmas.CpAlsMatrix
+import PyttbModel.Lemmas.CpAlsMonotone
+import PyttbModel.Lemmas.CpAlsMonotoneWitness
 import Mathlib.Analysis.Real.Sqrt
 
 set_option linter.unusedSectionVars false
@@ -206,7 +210,10 @@ Missing for the statement about `fit` itself (bridge from the list kernels to `M
 (b) `mttkrp(X, U, n) = X_(n) · Z`,
 (c) `‖X − [[w; U]]‖² = ‖X_(n) − (U_n diag w) Zᵀ‖²_F` for every mode `n`,
 after which monotonicity of `normresidual` over a pass, and of `fit = 1 − normresidual/‖X‖`,
-follows from `C09_residual` by chaining this inequality over the modes of the sweep. -/
+follows from `C09_residual` by chaining this inequality over the modes of the sweep.
+(The statement about `fit` itself is now `C09_fit_monotone` below; its proof does not pass through
+`Matrix`: (a)–(c) are established as identities between finite sums over the list kernels, see
+`Lemmas/CpAlsMonotone.lean`.) -/
 theorem C09_fit_monotone_partial {D : Data α} {S : Services α} {o : NumOps α} (ho : o.Lawful)
     (hS : SolveContract S) {rank it last n : Nat} {st st' : State α}
     (h : modeUpdate D S o rank it last n st = .ok st') (hn : n < st.U.length)
@@ -219,6 +226,114 @@ theorem C09_fit_monotone_partial {D : Data α} {S : Services α} {o : NumOps α}
     fro2 (Xn - toMatrix (scaledFactor st' n (D.shape.getD n 0) rank) (D.shape.getD n 0) rank * Zᵀ)
       ≤ fro2 (Xn - toMatrix (scaledFactor st n (D.shape.getD n 0) rank) (D.shape.getD n 0) rank * Zᵀ) :=
   C09_mode_update_optimal ho hS h hn hY hw Xn Z hZ hB _
+
+/-! ### the fit never gets worse — list model -/
+
+/-- One mode update does not increase the distance between the data and the model:
+`‖X − [[weights'; U']]‖² ≤ ‖X − [[weights; U]]‖²` for the states before and after the body of
+`for n in dimorder`, for data obeying the C02 laws and a solver obeying its contract.
+Both branches of the guard are covered: on the solve branch the answer `A0` of the solver
+minimises `A ↦ ‖X − [[1; U with U_n := A]]‖²` (normal equations; the coefficient matrix
+`∗_{m≠n} U_mᵀU_m` is symmetric positive semi-definite and, like the MTTKRP, does not depend on
+mode `n`), and the model before the update is of that form with `A = U_n·diag(weights)`; on the
+all-zero branch the coefficient matrix vanishes, so the model before and the model after are both
+the zero array.  The column re-scaling does not change the model (`U'_n·diag(weights') = A0`)
+provided no `0/0` occurs in `Unew / weights`: the new scales are all non-zero, or all zero (then
+nothing is divided).  This is hypothesis `hreg`; it can only fail in pass `0` (2-norm scale, a
+solver answer with some but not all columns zero — NumPy then produces NaN), from pass `1` on the
+scale is `≥ 1` (`C09_fit_monotone_sweep`, `C09_fit_monotone` need no such hypothesis). -/
+theorem C09_fit_monotone_mode_update {D : Data α} {S : Services α} {o : NumOps α} (ho : o.Lawful)
+    (hS : SolveContract S) {X : List Nat → α} (hD : DataLaws D X) {rank it last n : Nat} {st st' : State α}
+    (h : modeUpdate D S o rank it last n st = .ok st') (hI : PassInv D rank st)
+    (hw : st.weights.length = rank) (hn : n < D.shape.length)
+    (hreg : (∀ r < rank, st'.weights.getD r 0 ≠ 0) ∨ (∀ r < rank, st'.weights.getD r 0 = 0)) :
+    ip D.shape (fun i => X i - Ktensor.get ⟨st'.weights, st'.U⟩ i)
+        (fun i => X i - Ktensor.get ⟨st'.weights, st'.U⟩ i) ≤
+      ip D.shape (fun i => X i - Ktensor.get ⟨st.weights, st.U⟩ i)
+        (fun i => X i - Ktensor.get ⟨st.weights, st.U⟩ i) :=
+  modeUpdate_resid_le ho hS hD h hI hw hn hreg
+
+/-- A whole pass (all mode updates of `for n in dimorder`, any pass index `it`) does not increase
+`‖X − M‖²`, `M = [[weights; U]]`, provided every mode update of the sweep is free of `0/0` in the
+column re-scaling (`hreg`: after each update that succeeds the new scales are all non-zero or all
+zero; automatic for `it > 0`, see `C09_fit_monotone`). -/
+theorem C09_fit_monotone_sweep {D : Data α} {S : Services α} {o : NumOps α} (ho : o.Lawful)
+    (hS : SolveContract S) {X : List Nat → α} (hD : DataLaws D X) {rank : Nat} {stoptol : α}
+    {dims : List Nat} {it : Nat} {st st' : State α}
+    (h : iterStep D S o rank stoptol dims it st = .ok st') (hI : PassInv D rank st)
+    (hw : st.weights.length = rank) (hdims : ∀ n ∈ dims, n < D.shape.length)
+    (hreg : SweepAll (fun n s => modeUpdate D S o rank it (dims.getLastD 0) n s)
+      (fun s => (∀ r < rank, s.weights.getD r 0 ≠ 0) ∨ (∀ r < rank, s.weights.getD r 0 = 0)) dims st) :
+    ip D.shape (fun i => X i - Ktensor.get ⟨st'.weights, st'.U⟩ i)
+        (fun i => X i - Ktensor.get ⟨st'.weights, st'.U⟩ i) ≤
+      ip D.shape (fun i => X i - Ktensor.get ⟨st.weights, st.U⟩ i)
+        (fun i => X i - Ktensor.get ⟨st.weights, st.U⟩ i) :=
+  iterStep_resid_le ho hS hD h hI hw hdims hreg
+
+/-- The fit never gets worse from one iteration to the next.  Let `st` be the state after some pass
+(`h0`) and `st'` the state after the following pass (`h`; its index `it` is then positive — in
+`cp_als` it is the index of the first pass plus one).  For data obeying the C02 laws with
+`‖X‖ = D.norm > 0`, a solver obeying its contract and a lawful number system:
+`‖X − M'‖² ≤ ‖X − M‖²` for the models `M`, `M'` the two passes assemble, the reported
+`normresidual` does not increase and the reported `fit = 1 − normresidual/‖X‖` does not decrease.
+No assumption on which branch of the all-zero guard the updates take, nor on the column scales
+(from the second pass on they are `max(max|column|, 1) ≥ 1`). -/
+theorem C09_fit_monotone {D : Data α} {S : Services α} {o : NumOps α} (ho : o.Lawful)
+    (hS : SolveContract S) {X : List Nat → α} (hD : DataLaws D X) {rank : Nat} {stoptol : α}
+    {dims : List Nat} {it0 it : Nat} {st0 st st' : State α}
+    (h0 : iterStep D S o rank stoptol dims it0 st0 = .ok st) (hI : PassInv D rank st0)
+    (h : iterStep D S o rank stoptol dims it st = .ok st') (hit : 0 < it)
+    (hne : dims ≠ []) (hdims : ∀ n ∈ dims, n < D.shape.length)
+    (hpos : 0 < D.norm) (hnorm : D.norm * D.norm = ip D.shape X X) :
+    ip D.shape (fun i => X i - Ktensor.get ⟨st'.weights, st'.U⟩ i)
+        (fun i => X i - Ktensor.get ⟨st'.weights, st'.U⟩ i) ≤
+      ip D.shape (fun i => X i - Ktensor.get ⟨st.weights, st.U⟩ i)
+        (fun i => X i - Ktensor.get ⟨st.weights, st.U⟩ i) ∧
+    st'.normresidual ≤ st.normresidual ∧ st.fit ≤ st'.fit := by
+  have hlast : dims.getLastD 0 < D.shape.length := by
+    apply hdims
+    rw [List.getLastD_eq_getLast?, List.getLast?_eq_some_getLast hne]
+    exact List.getLast_mem hne
+  have hR := iterStep_reported ho h0 hI hne hlast hD hpos.ne' hnorm
+  exact ⟨iterStep_resid_le ho hS hD h hR.inv hR.wlen hdims (sweepAll_later ho hit _ _),
+    (iterStep_fit_le ho hS hD h hit hR hne hdims hpos hnorm).2⟩
+
+/-- The fit never gets worse over a whole run.  A successful `cp_als` run executes passes
+`0, 1, …, iters`; `tr` lists the loop states after these passes (`IsTrace`: each is `iterStep` of
+the previous one, the first of the start state), the output is computed from the last of them, and
+along `tr` — for ANY two passes, the earlier one first — the reported `normresidual` does not
+increase and the reported `fit` does not decrease. -/
+theorem C09_fit_monotone_run {D : Data α} {S : Services α} {o : NumOps α} (ho : o.Lawful)
+    (hS : SolveContract S) {X : List Nat → α} (hD : DataLaws D X) {P : Params α} {init : Init α}
+    {out : Output α} (h : run D S o P init = .ok out) (hi : InitOK D P.rank init)
+    (hpos : 0 < D.norm) (hnorm : D.norm * D.norm = ip D.shape X X) :
+    ∃ (di od dims : List Nat) (K : Ktensor α) (tr : List (State α)),
+      setup D P init = .ok (di, od, dims, K) ∧
+      IsTrace (iterStep D S o P.rank P.stoptol dims) 0 (initState D P.rank dims K) tr ∧
+      tr.length = out.iters + 1 ∧
+      out = finish D o P di od K (tr.getLastD (initState D P.rank dims K)) ∧
+      tr.Pairwise (fun s s' => s'.normresidual ≤ s.normresidual ∧ s.fit ≤ s'.fit) := by
+  obtain ⟨di, od, dims, K, st, hs, hm, hl, rfl⟩ := run_ok h
+  obtain ⟨s1, _, s3, _, s5, s6, _⟩ := setup_spec hs hi
+  have hdims : ∀ n ∈ dims, n < D.shape.length := fun n hn =>
+    isPermOf_lt s5 _ (List.mem_filter.1 (s6 ▸ hn)).1
+  have hlast : dims.getLastD 0 < D.shape.length := by
+    apply hdims
+    rw [List.getLastD_eq_getLast?, List.getLast?_eq_some_getLast s3]
+    exact List.getLast_mem s3
+  obtain ⟨tr, t1, t2, t3⟩ := loopFrom_trace _ _ _ _ _ hl
+  have hne := t3 (Nat.pos_of_ne_zero hm)
+  have hlen := isTrace_iteration (fun k s s' hk => by
+    obtain ⟨st1, _, rfl⟩ := iterStep_ok hk; rfl) tr 0 _ t1 hne
+  refine ⟨di, od, dims, K, tr, hs, t1, ?_, by rw [t2], ?_⟩
+  · rw [t2] at hlen
+    show tr.length = st.iteration + 1
+    omega
+  · cases tr with
+    | nil => exact absurd rfl hne
+    | cons s tr =>
+      have hR := iterStep_reported ho t1.1 (passInv_init dims s1) s3 hlast hD hpos.ne' hnorm
+      exact trace_monotone ho hS hD s3 hdims hpos hnorm tr 1 s Nat.one_pos hR t1.2
 
 /-! ### the loop -/
 
@@ -320,6 +435,45 @@ example : ∃ S : Services ℝ, SolveContract S ∧ S.solve 0 [[2]] [[6]] = .ok 
     | zero => norm_num [sumRange, Mat.get]
     | succ i => simp [sumRange, Mat.get]
   · simp [hc] at h
+
+/-- `C09_fit_monotone` is not vacuous: the `2 × 1` array `X = [[3], [4]]` (`‖X‖ = 5`; it obeys
+the data laws, `exD_laws`), rank one, a solver for `1 × 1` systems (`exS_contract`), the start
+`U = ([[1], [1]], [[1]])`, ℝ with `Real.sqrt`.  Pass `0` and pass `1` both succeed through the
+solve branch (pass `0` ends in `U = ([[3/5], [4/5]], [[1]])`, `weights = [5]`), all hypotheses of
+the theorem hold, and it yields `fit` after pass `0` `≤ fit` after pass `1`. -/
+example : ∃ st st' : State ℝ,
+    iterStep exD exS CpAls.realOps 1 0 [0, 1] 0 exSt0 = .ok st ∧
+    iterStep exD exS CpAls.realOps 1 0 [0, 1] 1 st = .ok st' ∧
+    DataLaws exD exX ∧ SolveContract exS ∧ PassInv exD 1 exSt0 ∧
+    (0 < exD.norm ∧ exD.norm * exD.norm = ip exD.shape exX exX) ∧
+    st'.normresidual ≤ st.normresidual ∧ st.fit ≤ st'.fit := by
+  have hsweep0 : [0, 1].foldlM (fun s n => modeUpdate exD exS CpAls.realOps 1 0 1 n s) exSt0 = .ok exSt1 := by
+    norm_num [modeUpdate, exSt0, exSt1, initState, exD, exS, solveStep, allZero, coef, gram, tab, ex_range1,
+      ex_range2, prodOver, sumRange, Mat.get, CpAls.realOps, applyUpdate, colWeights, scaleCols, CpAls.col,
+      Gen.colWeight, Gen.firstIteration, Gen.colWeightFirst, sumL, bind, Except.bind, pure, Except.pure,
+      ex_sqrt25, ex_sqrt3344]
+  have h0 : iterStep exD exS CpAls.realOps 1 0 [0, 1] 0 exSt0 =
+      .ok (closePass CpAls.realOps 0 0 0 (passReport exD CpAls.realOps 1 [0, 1] exSt1).1
+        (passReport exD CpAls.realOps 1 [0, 1] exSt1).2 exSt1) := by
+    unfold iterStep
+    simp only [List.getLastD_cons, List.getLastD_nil]
+    rw [hsweep0]
+    rfl
+  have h1 : ∀ nr fit : ℝ, ∃ st', iterStep exD exS CpAls.realOps 1 0 [0, 1] 1
+      (closePass CpAls.realOps 0 0 0 nr fit exSt1) = .ok st' := by
+    intro nr fit
+    norm_num [iterStep, closePass, modeUpdate, exSt1, exD, exS, solveStep, allZero, coef, gram, tab, ex_range1,
+      ex_range2, prodOver, sumRange, Mat.get, CpAls.realOps, applyUpdate, colWeights, scaleCols, CpAls.col,
+      Gen.colWeight, Gen.firstIteration, Gen.colWeightLater, NumOps.max, maxL, sumL, bind, Except.bind, pure,
+      Except.pure]
+  obtain ⟨st', h1⟩ := h1 _ _
+  have hdims : ∀ n ∈ [0, 1], n < exD.shape.length := by
+    intro n hn
+    simp only [List.mem_cons, List.not_mem_nil, or_false] at hn
+    rcases hn with rfl | rfl <;> decide
+  exact ⟨_, st', h0, h1, exD_laws, exS_contract, exSt0_inv, exD_norm,
+    (C09_fit_monotone C09_real_lawful exS_contract exD_laws h0 exSt0_inv h1 Nat.one_pos (by simp) hdims
+      exD_norm.1 exD_norm.2).2⟩
 
 /-- least squares on a concrete instance: `A⋆ = [1]`, `Z = [[1],[1]]`, `X = [[1, 1]]`. -/
 example (A : Matrix (Fin 1) (Fin 1) ℝ) :
